@@ -553,7 +553,9 @@ def check_C05(cx):
     lc = cfg({}, {"C1": "e1"}, qsize=1, until=True, serve="full", reads=1, maxfaults=1)
     mc_and_replay_cex(cx, "MClive", lc, ["TypeOK"], properties=["C05_ReadLoopEnds"], spec="FairSpec",
                       what="read loop terminates once reads fail / channel closes")
-    graphs = [("gfull", cfg({}, {"C1": "e1", "C2": "nil"}, qsize=1, until=True, serve="full", reads=1, maxfaults=1))]
+    graphs = [("gfull", cfg({}, {"C1": "e1", "C2": "nil"}, qsize=1, until=True, serve="full", reads=1, maxfaults=1)),
+              # the Close that takes effect is the failing sender's own (no other Close call around)
+              ("gwfault", cfg({"W1": W("W1"), "W2": W("Wv")}, {}, qsize=1, until=True, maxfaults=1))]
     if not quick:
         graphs += [("gfullw", cfg({"W1": W("W1")}, {"C1": "e1"}, qsize=1, until=True, serve="full", reads=1, maxfaults=1)),
                    ("gsync", cfg({"W1": W("W1")}, {"C1": "e1", "C2": "e2"}, qsize=0, serve="full", reads=1, maxfaults=1))]
